@@ -606,9 +606,14 @@ def registration_task(task, ctx: Ctx):
 
 
 def run(tier, R):
-    cap, depth = (3, 5) if tier == "quick" else (4, 5)
+    cap, depth = (3, 5) if tier == "quick" else (4, 4)
     spec = Spec(cap)
-    res = R.bfs(spec, depth=depth, max_states=700_000 if tier == "quick" else 12_000_000)  # (the unchanged tree has ~300 000 / ~5 000 000 states: the cap only ends runs on broken trees)
+    res = R.bfs(spec, depth=depth, max_states=700_000 if tier == "quick" else 3_000_000)  # (the unchanged tree has ~300 000 / ~1 200 000 states: the cap only ends runs on broken trees)
+    deep = None
+    if tier != "quick":
+        # second search: fewer live connections, two steps deeper (depth 5 with 4 connections has > 10^7 states and did not fit the budget)
+        deep = R.bfs(Spec(3), depth=7, max_states=4_000_000)
+        res = dict(res, states=res["states"] + deep["states"], transitions=res["transitions"] + deep["transitions"], capped=res["capped"] or deep["capped"])
     R.run_tasks(registration_task, [((None,),), ((["c"],),), ((["a"],),)], recheck=0.0)
     cov = {
         "states": res["states"],
@@ -617,13 +622,14 @@ def run(tier, R):
         "evaluations": res["transitions"],
         "distinct_nontrivial": len(R.ctx.sets.get("nontrivial", ())),
         "distinct_outcomes": len(R.ctx.sets.get("outcomes", ())),
-        "rule": f"BFS depth {depth} from two start configurations (fresh senders; senders already disconnected-from once) over connect(32 variants: behaviour x argument style)/connect same fn twice/disconnect by key/by args/"
+        "rule": ("" if deep is None else f"two searches (<= 4 live connections to depth 4; <= 3 to depth {deep['depth']}): ") + f"BFS depth {depth} from two start configurations (fresh senders; senders already disconnected-from once) over connect(32 variants: behaviour x argument style)/connect same fn twice/disconnect by key/by args/"
         f"missing/emit/kill weak arg/drop sender/unregistered name, <= {cap} live connections; state = complete handler lists read from "
         "the senders + liveness; non-trivial = distinct (state, emit) with >= 1 handler call; outcomes = distinct (behaviours at start, "
         "removed during emit, call sequence); plus every class shape with <= 2 bases out of {declares a, declares b, metaclass without signals, plain mixin} x own signals x one more "
         "level of subclassing: connect_signal accepts a name iff a class of the MRO declares it",
         "exhaustive": not res["capped"],
         "bfs_levels": res["levels"],
+        "deep_search": None if deep is None else {"max_live_connections": 3, "depth": deep["depth"], "states": deep["states"], "transitions": deep["transitions"], "levels": deep["levels"]},
         "bound": {"depth": depth, "max_live_connections": cap, "recursion_depth": 1},
     }
     return {
